@@ -243,9 +243,105 @@ pub proof fn lemma_fev_mont(res: int, a: int, b: int) requires (res * r256()) % 
     assert((res * rr) * (ri * ri) == (res * ri) * u) by(nonlinear_arith) requires u == rr * ri;
     lemma_fp_unit(res * ri, u, p);
 }
+// ---------------------------------------------------------------- digit-wise form of 256-bit add/sub results (schoolbook carries/borrows).
+// The value-level contracts of u256_add/u256_sub are single equations with coefficients 2^64..2^192 over twelve limbs; when an obligation
+// is false the solver has to find limbs satisfying them and its integer search on those equations exhausts the resource limit. The four
+// small rows per operation make that search immediate (no precondition on which of the two operations produced r: the rows are implications).
+pub open spec fn fp_bw(a: int, b: int, c: int) -> int { if a - b - c < 0 { 1int } else { 0int } }
+pub open spec fn fp_cy(a: int, b: int, c: int) -> int { if a + b + c >= 0x1_0000_0000_0000_0000int { 1int } else { 0int } }
+pub open spec fn fp_sub_dig(a: Seq<u64>, b: Seq<u64>, r: Seq<u64>) -> bool {
+    let b0 = fp_bw(a[0] as int, b[0] as int, 0);
+    let b1 = fp_bw(a[1] as int, b[1] as int, b0);
+    let b2 = fp_bw(a[2] as int, b[2] as int, b1);
+    let b3 = fp_bw(a[3] as int, b[3] as int, b2);
+    r[0] as int == a[0] as int - b[0] as int + 0x1_0000_0000_0000_0000int * b0
+    && r[1] as int == a[1] as int - b[1] as int - b0 + 0x1_0000_0000_0000_0000int * b1
+    && r[2] as int == a[2] as int - b[2] as int - b1 + 0x1_0000_0000_0000_0000int * b2
+    && r[3] as int == a[3] as int - b[3] as int - b2 + 0x1_0000_0000_0000_0000int * b3
+    && (b3 == 1) == (val4(a) < val4(b))
+}
+pub open spec fn fp_add_dig(a: Seq<u64>, b: Seq<u64>, r: Seq<u64>) -> bool {
+    let c0 = fp_cy(a[0] as int, b[0] as int, 0);
+    let c1 = fp_cy(a[1] as int, b[1] as int, c0);
+    let c2 = fp_cy(a[2] as int, b[2] as int, c1);
+    let c3 = fp_cy(a[3] as int, b[3] as int, c2);
+    r[0] as int == a[0] as int + b[0] as int - 0x1_0000_0000_0000_0000int * c0
+    && r[1] as int == a[1] as int + b[1] as int + c0 - 0x1_0000_0000_0000_0000int * c1
+    && r[2] as int == a[2] as int + b[2] as int + c1 - 0x1_0000_0000_0000_0000int * c2
+    && r[3] as int == a[3] as int + b[3] as int + c2 - 0x1_0000_0000_0000_0000int * c3
+    && (c3 == 1) == (val4(a) + val4(b) >= r256())
+}
+pub open spec fn fp_is_sub(a: Seq<u64>, b: Seq<u64>, r: Seq<u64>) -> bool { val4(r) - val4(a) + val4(b) == 0 || val4(r) - val4(a) + val4(b) == r256() }
+pub open spec fn fp_is_add(a: Seq<u64>, b: Seq<u64>, r: Seq<u64>) -> bool { val4(r) - val4(a) - val4(b) == 0 || val4(r) - val4(a) - val4(b) == -r256() }
+pub proof fn lemma_fp_sub_digits(a: Seq<u64>, b: Seq<u64>, r: Seq<u64>)
+    requires a.len() == 4, b.len() == 4, r.len() == 4, fp_is_sub(a, b, r),
+    ensures fp_sub_dig(a, b, r)
+{
+    lemma_val4_bounds(r); lemma_val4_bounds(a); lemma_val4_bounds(b);
+    let b0 = fp_bw(a[0] as int, b[0] as int, 0);
+    let b1 = fp_bw(a[1] as int, b[1] as int, b0);
+    let b2 = fp_bw(a[2] as int, b[2] as int, b1);
+    let b3 = fp_bw(a[3] as int, b[3] as int, b2);
+    let r0 = (a[0] as int - b[0] as int + 0x1_0000_0000_0000_0000int * b0) as u64;
+    let r1 = (a[1] as int - b[1] as int - b0 + 0x1_0000_0000_0000_0000int * b1) as u64;
+    let r2 = (a[2] as int - b[2] as int - b1 + 0x1_0000_0000_0000_0000int * b2) as u64;
+    let r3 = (a[3] as int - b[3] as int - b2 + 0x1_0000_0000_0000_0000int * b3) as u64;
+    let rp = seq![r0, r1, r2, r3];
+    assert(val4(rp) - b3 * r256() == val4(a) - val4(b));
+    lemma_val4_bounds(rp);
+    assert(val4(rp) == val4(r));
+    lemma_val4_inj(r, rp);
+}
+pub proof fn lemma_fp_add_digits(a: Seq<u64>, b: Seq<u64>, r: Seq<u64>)
+    requires a.len() == 4, b.len() == 4, r.len() == 4, fp_is_add(a, b, r),
+    ensures fp_add_dig(a, b, r)
+{
+    lemma_val4_bounds(r); lemma_val4_bounds(a); lemma_val4_bounds(b);
+    let c0 = fp_cy(a[0] as int, b[0] as int, 0);
+    let c1 = fp_cy(a[1] as int, b[1] as int, c0);
+    let c2 = fp_cy(a[2] as int, b[2] as int, c1);
+    let c3 = fp_cy(a[3] as int, b[3] as int, c2);
+    let r0 = (a[0] as int + b[0] as int - 0x1_0000_0000_0000_0000int * c0) as u64;
+    let r1 = (a[1] as int + b[1] as int + c0 - 0x1_0000_0000_0000_0000int * c1) as u64;
+    let r2 = (a[2] as int + b[2] as int + c1 - 0x1_0000_0000_0000_0000int * c2) as u64;
+    let r3 = (a[3] as int + b[3] as int + c2 - 0x1_0000_0000_0000_0000int * c3) as u64;
+    let rp = seq![r0, r1, r2, r3];
+    assert(val4(rp) + c3 * r256() == val4(a) + val4(b));
+    lemma_val4_bounds(rp);
+    assert(val4(rp) == val4(r));
+    lemma_val4_inj(r, rp);
+}
+// rows for a given result r of an operation on a, b
+pub proof fn lemma_fp_digits(a: Seq<u64>, b: Seq<u64>, r: Seq<u64>)
+    requires a.len() == 4, b.len() == 4, r.len() == 4,
+    ensures fp_is_sub(a, b, r) ==> fp_sub_dig(a, b, r), fp_is_add(a, b, r) ==> fp_add_dig(a, b, r),
+{
+    if fp_is_sub(a, b, r) { lemma_fp_sub_digits(a, b, r); }
+    if fp_is_add(a, b, r) { lemma_fp_add_digits(a, b, r); }
+}
+// rows for a given result r of an operation on a and any second operand (the annotation does not have to name the constant the code passes)
+pub proof fn lemma_fp_digits_any(a: Seq<u64>, r: Seq<u64>)
+    requires a.len() == 4, r.len() == 4,
+    ensures forall|b: Seq<u64>| #![trigger val4(b)] b.len() == 4 ==> (fp_is_sub(a, b, r) ==> fp_sub_dig(a, b, r)) && (fp_is_add(a, b, r) ==> fp_add_dig(a, b, r)),
+{
+    assert forall|b: Seq<u64>| #![trigger val4(b)] b.len() == 4 implies (fp_is_sub(a, b, r) ==> fp_sub_dig(a, b, r)) && (fp_is_add(a, b, r) ==> fp_add_dig(a, b, r)) by {
+        lemma_fp_digits(a, b, r);
+    }
+}
+// rows for every result of an operation with second operand b (for a result that is returned directly and cannot be named)
+pub proof fn lemma_fp_digits_to(b: Seq<u64>)
+    requires b.len() == 4,
+    ensures forall|a: Seq<u64>, r: Seq<u64>| #![trigger val4(a), val4(r)] a.len() == 4 && r.len() == 4 ==> (fp_is_sub(a, b, r) ==> fp_sub_dig(a, b, r)) && (fp_is_add(a, b, r) ==> fp_add_dig(a, b, r)),
+{
+    assert forall|a: Seq<u64>, r: Seq<u64>| #![trigger val4(a), val4(r)] a.len() == 4 && r.len() == 4 implies (fp_is_sub(a, b, r) ==> fp_sub_dig(a, b, r)) && (fp_is_add(a, b, r) ==> fp_add_dig(a, b, r)) by {
+        lemma_fp_digits(a, b, r);
+    }
+}
 // ---------------------------------------------------------------- postconditions of the add/sub/neg reductions
 pub proof fn lemma_fp_add_post(a: int, b: int, v: int)
-    requires 0 <= a < P(), 0 <= b < P(), (v == a + b && a + b < P()) || (v == a + b - P() && a + b >= P())
+    requires 0 <= a < P(), 0 <= b < P(),
+        a + b < P() ==> v == a + b,
+        a + b >= P() ==> v == a + b - P(),
     ensures 0 <= v < P(), v == (a + b) % P(), fev(v) == (fev(a) + fev(b)) % P()
 {
     lemma_params();
@@ -254,7 +350,9 @@ pub proof fn lemma_fp_add_post(a: int, b: int, v: int)
     lemma_fev_add(v, a, b);
 }
 pub proof fn lemma_fp_sub_post(a: int, b: int, v: int)
-    requires 0 <= a <= P(), 0 <= b < P(), (v == a - b && a >= b) || (v == a - b + P() && a < b)
+    requires 0 <= a <= P(), 0 <= b < P(),
+        a >= b ==> v == a - b,
+        a < b ==> v == a - b + P(),
     ensures 0 <= v <= P(), v < P() || (a == P() && b == 0), v % P() == (a - b) % P(), fev(v) == (fev(a) - fev(b)) % P()
 {
     lemma_params();
@@ -262,7 +360,9 @@ pub proof fn lemma_fp_sub_post(a: int, b: int, v: int)
     lemma_fev_sub(v, a, b);
 }
 pub proof fn lemma_fp_neg_post(a: int, v: int)
-    requires 0 <= a < P(), (a == 0 && v == 0) || (a > 0 && v == P() - a)
+    requires 0 <= a < P(),
+        a == 0 ==> v == 0,
+        a > 0 ==> v == P() - a,
     ensures 0 <= v < P(), fev(v) == (P() - fev(a)) % P()
 {
     lemma_params();
@@ -364,20 +464,6 @@ pub proof fn lemma_fp_mont_q(a: int, b: int, tl: int, q: int, p: int, r: int)
     assert(q < 2 * p) by(nonlinear_arith) requires q * r < 2 * pr, pr == p * r, r > 0;
     assert(q >= 0) by(nonlinear_arith) requires q * r >= 0, r > 0;
 }
-// final conditional subtraction
-pub proof fn lemma_fp_mont_post(a: int, b: int, tl: int, q: int, res: int)
-    requires q * r256() == a * b + tl * P(), (res == q && q < P()) || (res == q - P() && q >= P())
-    ensures (res * r256()) % P() == (a * b) % P(), fev(res) == (fev(a) * fev(b)) % P()
-{
-    lemma_params();
-    let rr = r256(); let p = P();
-    lemma_fp_mod_shift(a * b, tl, p);
-    if q >= p {
-        assert((q - p) * rr == q * rr + (0 - rr) * p) by(nonlinear_arith);
-        lemma_fp_mod_shift(q * rr, 0 - rr, p);
-    }
-    lemma_fev_mont(res, a, b);
-}
 // ---------------------------------------------------------------- conversions
 pub proof fn lemma_fp_from_mont_post(a: int, res: int)
     requires 0 <= res < P(), (res * r256()) % P() == (a * 1) % P()
@@ -444,6 +530,77 @@ pub proof fn lemma_fp_pow_step(x: int, pre: nat, hv: int, pw: int, top: int, bit
     if bit == 1 {
         assert((2 * pre + 1 - 1) as nat == 2 * pre);
     }
+}
+//@section spec local
+// ---------------------------------------------------------------- mont_mul: stage lemmas. Their requires/ensures are linear in the limbs apart from the
+// products that the contracts of u256_mul state, and the congruence is hidden behind an opaque predicate, so that the verification condition of the
+// exec function contains no nonlinear reasoning step (a wrong step is reported as the first false `requires` conjunct below)
+#[verifier::opaque]
+pub open spec fn fp_mont_quot(a: int, b: int, q: int) -> bool { (q * r256()) % P() == (a * b) % P() }
+// the linear facts about the constants that the body of mont_mul needs
+proof fn lemma_fp_lin()
+    ensures val4(SM2_P@) == P(), val4(SM2_MODP_MONT_ONE@) == r256() - P(), 0 < P(), P() < r256(), r256() < 2 * P(),
+{
+    lemma_fp_consts(); lemma_params();
+}
+// z = a * b; t1 = low(z) * p'; t2 = low(t1) * p; s = z + t2 (carry c): the high half of s (with c on top) is the Montgomery quotient, below 2p
+proof fn lemma_fp_mont_stage(a: Seq<u64>, b: Seq<u64>, z: Seq<u64>, zl: Seq<u64>, t1: Seq<u64>, tw: Seq<u64>, t2: Seq<u64>, s: Seq<u64>, c: bool, r: Seq<u64>)
+    requires a.len() == 4, b.len() == 4, z.len() == 8, zl.len() == 4, t1.len() == 8, tw.len() == 4, t2.len() == 8, s.len() == 8, r.len() == 4,
+        val4(a) < P(), val4(b) < P(),
+        val8(z) == val4(a) * val4(b) || val8(z) == val4(b) * val4(a),
+        zl[0] == z[0], zl[1] == z[1], zl[2] == z[2], zl[3] == z[3],
+        val8(t1) == val4(zl) * val4(SM2_P_PRIME@) || val8(t1) == val4(SM2_P_PRIME@) * val4(zl),
+        tw[0] == t1[0], tw[1] == t1[1], tw[2] == t1[2], tw[3] == t1[3],
+        val8(t2) == val4(tw) * val4(SM2_P@) || val8(t2) == val4(SM2_P@) * val4(tw),
+        val8(s) + (if c { r256() * r256() } else { 0 }) == val8(z) + val8(t2),
+        r[0] == s[4], r[1] == s[5], r[2] == s[6], r[3] == s[7],
+    ensures fp_mont_quot(val4(a), val4(b), val4(r) + (if c { r256() } else { 0 })),
+        0 <= val4(r) + (if c { r256() } else { 0 }) < 2 * P(),
+{
+    assert(val4(b) * val4(a) == val4(a) * val4(b) && val4(SM2_P_PRIME@) * val4(zl) == val4(zl) * val4(SM2_P_PRIME@) && val4(SM2_P@) * val4(tw) == val4(tw) * val4(SM2_P@)) by(nonlinear_arith);
+    lemma_fp_consts(); lemma_params();
+    let q = val4(r) + (if c { r256() } else { 0 });
+    let tl = val4(tw);
+    let lo_z = z.subrange(0, 4); let hi_z = z.subrange(4, 8);
+    let lo_t = t1.subrange(0, 4); let hi_t = t1.subrange(4, 8);
+    let lo_s = s.subrange(0, 4); let hi_s = s.subrange(4, 8);
+    assert(zl =~= lo_z);
+    assert(tw =~= lo_t);
+    assert(r =~= hi_s);
+    lemma_val4_bounds(lo_z); lemma_val4_bounds(hi_z); lemma_val4_bounds(lo_t); lemma_val4_bounds(hi_t);
+    lemma_val4_bounds(lo_s); lemma_val4_bounds(hi_s);
+    lemma_val4_bounds(a); lemma_val4_bounds(b);
+    let zz = val8(z); let zlv = val4(lo_z); let rr = r256(); let pp = val4(SM2_P_PRIME@);
+    assert(zz == val4(hi_z) * rr + zlv) by(nonlinear_arith) requires zz == zlv + rr * val4(hi_z);
+    lemma_fundamental_div_mod_converse(zz, rr, val4(hi_z), zlv);
+    assert(zlv * pp == val4(hi_t) * rr + tl) by(nonlinear_arith) requires zlv * pp == tl + rr * val4(hi_t);
+    lemma_fundamental_div_mod_converse(zlv * pp, rr, val4(hi_t), tl);
+    assert(zz >= 0) by(nonlinear_arith) requires zz == val4(a) * val4(b), val4(a) >= 0, val4(b) >= 0;
+    lemma_fp_mont_div(zz, zlv, tl, pp, P(), rr);
+    let tt = zz + tl * P();
+    assert(tt == q * rr + val4(lo_s)) by(nonlinear_arith)
+        requires tt == val4(lo_s) + rr * val4(hi_s) + (if c { rr * rr } else { 0 }), q == val4(hi_s) + (if c { rr } else { 0 });
+    lemma_fundamental_div_mod_converse(tt, rr, q, val4(lo_s));
+    assert(q * rr == val4(a) * val4(b) + tl * P());
+    lemma_fp_mont_q(val4(a), val4(b), tl, q, P(), rr);
+    lemma_fp_mod_shift(val4(a) * val4(b), tl, P());
+    reveal(fp_mont_quot);
+}
+// final conditional subtraction
+proof fn lemma_fp_mont_final(a: int, b: int, q: int, res: int)
+    requires fp_mont_quot(a, b, q), 0 <= q < 2 * P(),
+        q < P() ==> res == q,
+        q >= P() ==> res == q - P(),
+    ensures 0 <= res < P(), (res * r256()) % P() == (a * b) % P(), fev(res) == (fev(a) * fev(b)) % P()
+{
+    lemma_params();
+    reveal(fp_mont_quot);
+    let rr = r256(); let p = P();
+    if q >= p {
+        assert((q - p) * rr == q * rr + (0 - rr) * p) by(nonlinear_arith);
+        lemma_fp_mod_shift(q * rr, 0 - rr, p);
+    }
+    lemma_fev_mont(res, a, b);
 }
 //@section code gm-sm2/src/fields/fp64.rs
 
@@ -573,32 +730,14 @@ fn mont_mul(a: &U256, b: &U256) -> (res: U256)
 
     // r = high(r)
     r = [z[4], z[5], z[6], z[7]];
-    let ghost q = val4(r@) + (if c { r256() } else { 0 });
-    let ghost tl = val4(t_low@);
+    let ghost rq = r@;
+    let ghost q = val4(rq) + (if c { r256() } else { 0 });
     proof {
-        lemma_fp_consts(); lemma_params();
-        let lo_z = z0.subrange(0, 4); let hi_z = z0.subrange(4, 8);
-        let lo_t = t1@.subrange(0, 4); let hi_t = t1@.subrange(4, 8);
-        let lo_s = sum@.subrange(0, 4); let hi_s = sum@.subrange(4, 8);
-        assert(z_low@ =~= lo_z);
-        assert(t_low@ =~= lo_t);
-        assert(r@ =~= hi_s);
-        lemma_val4_bounds(lo_z); lemma_val4_bounds(hi_z); lemma_val4_bounds(lo_t); lemma_val4_bounds(hi_t);
-        lemma_val4_bounds(lo_s); lemma_val4_bounds(hi_s);
-        lemma_val4_bounds(a@); lemma_val4_bounds(b@);
-        let zz = val8(z0); let zl = val4(lo_z); let rr = r256(); let pp = val4(SM2_P_PRIME@);
-        assert(zz == val4(hi_z) * rr + zl) by(nonlinear_arith) requires zz == zl + rr * val4(hi_z);
-        lemma_fundamental_div_mod_converse(zz, rr, val4(hi_z), zl);
-        assert(zl * pp == val4(hi_t) * rr + tl) by(nonlinear_arith) requires zl * pp == tl + rr * val4(hi_t);
-        lemma_fundamental_div_mod_converse(zl * pp, rr, val4(hi_t), tl);
-        assert(zz >= 0) by(nonlinear_arith) requires zz == val4(a@) * val4(b@), val4(a@) >= 0, val4(b@) >= 0;
-        lemma_fp_mont_div(zz, zl, tl, pp, P(), rr);
-        let tt = zz + tl * P();
-        assert(tt == q * rr + val4(lo_s)) by(nonlinear_arith)
-            requires tt == val4(lo_s) + rr * val4(hi_s) + (if c { rr * rr } else { 0 }), q == val4(hi_s) + (if c { rr } else { 0 });
-        lemma_fundamental_div_mod_converse(tt, rr, q, val4(lo_s));
-        assert(q * rr == val4(a@) * val4(b@) + tl * P());
-        lemma_fp_mont_q(val4(a@), val4(b@), tl, q, P(), rr);
+        lemma_fp_lin();
+        lemma_fp_mont_stage(a@, b@, z0, z_low@, t1@, t_low@, t@, sum@, c, rq);
+        lemma_val4_bounds(rq);
+        // boundary point of the comparison below: hand the limbs to the solver (val4 is injective)
+        if val4(rq) == val4(SM2_P@) { lemma_val4_inj(rq, SM2_P@); }
     }
     if c {
         r = u256_add(&r, &SM2_MODP_MONT_ONE).0;
@@ -607,7 +746,8 @@ fn mont_mul(a: &U256, b: &U256) -> (res: U256)
     }
     proof {
         lemma_val4_bounds(r@);
-        lemma_fp_mont_post(val4(a@), val4(b@), tl, q, val4(r@));
+        lemma_fp_digits_any(rq, r@);
+        lemma_fp_mont_final(val4(a@), val4(b@), q, val4(r@));
     }
     r
 }
@@ -620,6 +760,9 @@ fn fp_sqrt(a: &U256) -> (res: Sm2Result<U256>)
     let r = fp_pow(a, &SM2_SQRT_EXP);
     let a1 = r.fp_sqr();
     proof {
+        // the exponent passed above is (p + 1) / 4 (stated on the constant the code names, so that a different constant is reported)
+        lemma_fp_consts();
+        assert(4 * val4(SM2_SQRT_EXP@) == P() + 1);
         lemma_val4_bounds(a1@); lemma_val4_bounds(a@);
         if fe(a1@) == fe(a@) { lemma_fev_inj(val4(a1@), val4(a@)); }
     }
@@ -668,13 +811,19 @@ impl FieldModOperation for U256 {
     fn fp_add(&self, rhs: &Self) -> Self {
         let (r, c) = u256_add(self, rhs);
         proof {
-            lemma_fp_consts(); lemma_params();
+            lemma_fp_lin();
             lemma_val4_bounds(r@); lemma_val4_bounds(self@); lemma_val4_bounds(rhs@);
+            lemma_fp_digits(self@, rhs@, r@); lemma_fp_digits(self@, self@, r@); lemma_fp_digits(rhs@, rhs@, r@);
+            // checkpoint: what the first operation has to deliver (a wrong first operation is reported here, once)
+            assert(val4(r@) + (if c { r256() } else { 0 }) == val4(self@) + val4(rhs@));
+            // boundary point of the comparison below: hand the limbs to the solver (val4 is injective)
+            if val4(r@) == val4(SM2_P@) { lemma_val4_inj(r@, SM2_P@); }
         }
         if c {
             let (diff, _borrow) = u256_add(&r, &SM2_MODP_MONT_ONE);
             proof {
                 lemma_val4_bounds(diff@);
+                lemma_fp_digits_any(r@, diff@);
                 lemma_fp_add_post(val4(self@), val4(rhs@), val4(diff@));
             }
             return diff;
@@ -683,6 +832,7 @@ impl FieldModOperation for U256 {
             let (diff, _borrow) = u256_sub(&r, &SM2_P);
             proof {
                 lemma_val4_bounds(diff@);
+                lemma_fp_digits_any(r@, diff@);
                 lemma_fp_add_post(val4(self@), val4(rhs@), val4(diff@));
             }
             return diff;
@@ -694,13 +844,17 @@ impl FieldModOperation for U256 {
     fn fp_sub(&self, rhs: &Self) -> Self {
         let (raw_diff, borrow) = u256_sub(self, rhs);
         proof {
-            lemma_fp_consts(); lemma_params();
+            lemma_fp_lin();
             lemma_val4_bounds(raw_diff@); lemma_val4_bounds(self@); lemma_val4_bounds(rhs@);
+            lemma_fp_digits(self@, rhs@, raw_diff@); lemma_fp_digits(rhs@, self@, raw_diff@);
+            // checkpoint: what the first operation has to deliver (a wrong first operation is reported here, once)
+            assert(val4(raw_diff@) - (if borrow { r256() } else { 0 }) == val4(self@) - val4(rhs@));
         }
         if borrow {
             let (diff, _borrow) = u256_sub(&raw_diff, &SM2_MODP_MONT_ONE);
             proof {
                 lemma_val4_bounds(diff@);
+                lemma_fp_digits_any(raw_diff@, diff@);
                 lemma_fp_sub_post(val4(self@), val4(rhs@), val4(diff@));
             }
             diff
@@ -715,12 +869,12 @@ impl FieldModOperation for U256 {
     }
 
     fn fp_neg(&self) -> Self {
-        proof { lemma_fp_consts(); lemma_params(); lemma_val4_bounds(self@); }
+        proof { lemma_fp_lin(); lemma_val4_bounds(self@); }
         if self.is_zero() {
             proof { lemma_fp_neg_post(val4(self@), val4(self@)); }
             self.clone()
         } else {
-            proof { lemma_fp_neg_post(val4(self@), P() - val4(self@)); }
+            proof { lemma_fp_neg_post(val4(self@), P() - val4(self@)); lemma_fp_digits_to(self@); }
             u256_sub(&SM2_P, self).0
         }
     }
@@ -746,6 +900,7 @@ impl FieldModOperation for U256 {
             assert(x0 & 0x01 == 1 || x0 & 0x01 == 0) by(bit_vector);
             assert(SM2_P@[0] & 1 == 1) by(compute);
             assert(!odd ==> r0 =~= self@);
+            lemma_fp_digits_any(self@, r0);     // digit rows of the addition above
             lemma_fp_div2_parity(self@, SM2_P@, r0, c == 1, odd);
         }
         r[0] = (r[0] >> 1) | ((r[1] & 1) << 63);
